@@ -60,7 +60,8 @@ META = {
         "R2 (API): match_with_wildcard returns True exactly under `pattern is None`, otherwise fullmatch (or match of an "
         "expression the translator ends in \\Z - not `$`, which also matches before a final line feed) of the unmodified name against "
         "the regex built from the unmodified pattern; at every call of match_with_wildcard in the package the pattern is never "
-        "tested for truthiness / emptiness next to the match (only None means 'no filter'; '' matches exactly the empty value); a "
+        "tested for truthiness / emptiness next to the match (only None means 'no filter'; '' matches exactly the empty value); a pattern the "
+        "package compiles with _create_regex itself is applied with fullmatch, never match/search; a "
         "regex-free shortcut return (`name.startswith(e)`, `endswith`, `==`, `in`) is model-checked: for every abstract pattern up to "
         "length 4 that takes it (its guards evaluated with pure str/int operations on the concretised pattern) the string test must "
         "accept the same names as the documented translation; the cached translator has the pattern as its only parameter, reads no mutable "
@@ -70,7 +71,7 @@ META = {
         "4-tuple or, through a helper that returns project_name/project_version/uri/display_name in tuple order, as Sphinx's item "
         "class; a local list of a mapping's keys minus the keys without ':') shows that the flat Sphinx keys are walked grouped by "
         "domain in order of first occurrence (a stable sort on list.index of the domain, or on a {domain: index} dict in which the "
-        "first occurrence wins - a dict comprehension over enumerate keeps the last and is rejected -, or a {domain: [keys]} dict "
+        "first occurrence wins, e.g. filled with rank.setdefault(domain, len(rank)) - a dict comprehension over enumerate keeps the last and is rejected -, or a {domain: [keys]} dict "
         "filled key by key and walked with itertools.chain.from_iterable(d.values())) - the order in which the native nesting lists them - and that each coordinate is tested against its own filter - through "
         "match_with_wildcard or through _create_regex(<filter>).fullmatch, never Pattern.match/search and never on the joined "
         "domain:type key -, that all four tests dominate every yield (an `f is None or ...` disjunct is accepted; a boolean flag variable is judged "
@@ -85,7 +86,9 @@ META = {
         "R4 (callers and the inv: link): the destination is taken apart literally (`href.partition(':')[2].partition('#')`, not "
         "urlparse, which drops a `?query`), after normalizeLinkText plus the `%25` -> `%` step, and the path is split with "
         "maxsplit 2 so that the object type is the remainder (types contain ':'); a part that is left empty is handed on as None "
-        "(`part or None`), i.e. as an omitted filter; the destination is the token's href, which markdown-it's normalizeLink has "
+        "(`part or None`), i.e. as an omitted filter - where the destination is taken apart or, failing that, in every "
+        "implementation of get_inventory_matches (the Sphinx renderer overrides it); a parts list padded in place "
+        "(`parts += [''] * k`) and unpacked through `(part or None for part in parts)` is understood; the destination is the token's href, which markdown-it's normalizeLink has "
         "re-formatted with mdurl.parse/format unless the package replaces that hook (re-read from the installed markdown_it source; "
         "reported under a known finding); callers hand every filter on under its own role (keyword pass-through in both "
         "get_inventory_matches, the resolver, the CLI options; href parts inv:<invs>:<domains>:<otypes>#<target>); both "
@@ -158,6 +161,8 @@ def _defs_of(fi: FunctionInfo, name: str) -> list[ast.expr]:
         elif isinstance(n, ast.AnnAssign) and isinstance(n.target, ast.Name) and n.target.id == name and n.value is not None:
             out.append(n.value)
         elif isinstance(n, (ast.AugAssign,)) and isinstance(n.target, ast.Name) and n.target.id == name:
+            if isinstance(n.op, ast.Add) and _is_none_padding(n.value):
+                continue  # `parts += [""] * k`: padding behind the elements, which keep their positions
             raise Unsupported(f"{fi.qualname}: augmented assignment to {name}")
         elif isinstance(n, (ast.For, ast.comprehension)) and any(isinstance(x, ast.Name) and x.id == name for x in ast.walk(n.target)):
             raise Unsupported(f"{fi.qualname}: {name} is a loop variable")
@@ -167,9 +172,9 @@ def _defs_of(fi: FunctionInfo, name: str) -> list[ast.expr]:
 
 
 def _is_none_padding(e: ast.expr) -> bool:
-    """`[None] * k`, `k * [None]`, `[None, None]`, `(None,) * k`: a sequence of None of some length."""
+    """`[None] * k`, `k * [None]`, `[None, None]`, `(None,) * k`, likewise with '': a sequence of "nothing given" of some length."""
     if isinstance(e, (ast.List, ast.Tuple)):
-        return bool(e.elts) and all(isinstance(x, ast.Constant) and x.value is None for x in e.elts)
+        return bool(e.elts) and all(isinstance(x, ast.Constant) and (x.value is None or x.value == "") for x in e.elts)
     if isinstance(e, ast.BinOp) and isinstance(e.op, ast.Mult):
         return _is_none_padding(e.left) or _is_none_padding(e.right)
     return False
@@ -195,7 +200,7 @@ def _elem_source(seq: ast.expr, i: int) -> ast.expr:
         # (f(x) for x in (a, b, c)) unpacked: element i is f(<i-th item>)
         gen = seq.generators[0]
         src_i = _elem_source(gen.iter, i) if (not gen.ifs and not gen.is_async and isinstance(gen.target, ast.Name)) else None
-        if src_i is not None and not (isinstance(src_i, ast.Subscript) and src_i.value is gen.iter):
+        if src_i is not None and (isinstance(gen.iter, ast.Name) or not (isinstance(src_i, ast.Subscript) and src_i.value is gen.iter)):
             var, item = gen.target.id, ast.unparse(src_i)
 
             class Sub(ast.NodeTransformer):
@@ -1424,6 +1429,34 @@ def r2_api(corpus: Corpus, rep: Report, tier: str):
                           "although '' is a pattern that matches exactly the empty value (e.g. `myst-inv -l \"\"` must list only the entries whose location is '')")
         else:
             rep.ok("C19.R2", k, fi.module.site(call))
+    # (e) wherever the package applies a pattern compiled by _create_regex itself, it is a whole-value match
+    try:
+        end_anchor_ = _transducer(corpus).end_anchor
+    except (Unsupported, AnchorMissing):
+        end_anchor_ = None
+    for fi, call in g.callers().get(cr.fq, []):
+        if fi.fq == mw.fq or fi.is_lambda:
+            continue
+        k = f"{fi.fq}|a pattern compiled with _create_regex is applied to the whole value"
+        holder = None
+        x = call
+        while isinstance(parent(x), ast.IfExp):
+            x = parent(x)  # `None if f is None else _create_regex(f)`
+        px = parent(x)
+        uses: list[ast.Call] = []
+        if isinstance(px, ast.Attribute) and isinstance(parent(px), ast.Call) and parent(px).func is px:
+            uses.append(parent(px))
+        elif isinstance(px, ast.Assign) and len(px.targets) == 1 and isinstance(px.targets[0], ast.Name):
+            holder = px.targets[0].id
+            uses = [c for c in fi.local_nodes() if isinstance(c, ast.Call) and isinstance(c.func, ast.Attribute) and isinstance(c.func.value, ast.Name) and c.func.value.id == holder]
+        else:
+            continue  # handed on / stored: judged where it is used (the filter functions have their own rule)
+        bad = [c for c in uses if c.func.attr in ("match", "search") and not (c.func.attr == "match" and end_anchor_ == "\\Z")]
+        if bad:
+            rep.violation("C19.R2", k, fi.module.site(bad[0]), f"`{short(bad[0], 60)}` applies the compiled wildcard pattern with `{bad[0].func.attr}`: the pattern only has to match at the start of / somewhere in the value "
+                          "(e.g. `myst-inv -l index` also lists `index.html#x`), while every other filter is a full match")
+        elif any(c.func.attr == "fullmatch" for c in uses):
+            rep.ok("C19.R2", k, fi.module.site(call))
     rep.expect_min("C19.R2", 10, "None rule, fullmatch, cache signature, call site, callers of match_with_wildcard")
 
 
@@ -1690,6 +1723,16 @@ class Kinds:
 
         for st in stmts(n.body):
             c = st.value if isinstance(st, ast.Expr) else None
+            # rank.setdefault(<domain of key>, len(rank)): the first occurrence of a domain fixes its rank
+            if (isinstance(c, ast.Call) and isinstance(c.func, ast.Attribute) and c.func.attr == "setdefault" and isinstance(c.func.value, ast.Name) and len(c.args) == 2 and not c.keywords
+                    and isinstance(c.args[1], ast.Call) and isinstance(c.args[1].func, ast.Name) and c.args[1].func.id == "len" and len(c.args[1].args) == 1
+                    and isinstance(c.args[1].args[0], ast.Name) and c.args[1].args[0].id == c.func.value.id and isinstance(n.iter, ast.Name) and n.iter.id in self.keyviews):
+                r_ = c.func.value.id
+                dom = _domain_of(c.args[0], var)
+                init = _defs_of(self.fi, r_)
+                if dom is not None and len(init) == 1 and isinstance(init[0], ast.Dict) and not init[0].keys:
+                    self.domranks[r_] = (n.iter.id, dom, "first")
+                continue
             if (isinstance(c, ast.Call) and isinstance(c.func, ast.Attribute) and c.func.attr == "append" and len(c.args) == 1 and isinstance(c.args[0], ast.Name) and c.args[0].id == var
                     and isinstance(c.func.value, ast.Call) and isinstance(c.func.value.func, ast.Attribute) and c.func.value.func.attr == "setdefault" and isinstance(c.func.value.func.value, ast.Name)
                     and len(c.func.value.args) == 2 and isinstance(c.func.value.args[1], ast.List) and not c.func.value.args[1].elts):
@@ -2566,6 +2609,8 @@ def _value_role(e: ast.expr, fi: FunctionInfo, ctx=None, depth: int = 0) -> str 
     (`q = self._parse(href)` ... `q.domains` / `a, b, c, d = self._parse(href)`)."""
     if isinstance(e, ast.Constant) and e.value is None:
         return "NONE"
+    if _or_none(e) is not None:
+        return _value_role(_or_none(e), fi, ctx, depth)  # `x or None`: the same value, an empty one counting as omitted
     hc = _helper_component(e, fi, ctx) if depth < 2 else None
     if hc is not None:
         tf, sel, _call = hc
@@ -2896,7 +2941,7 @@ class HrefParts:
         if isinstance(e, ast.Constant) and type(e.value) is int:
             return e.value
         if isinstance(e, ast.Call) and isinstance(e.func, ast.Name) and e.func.id == "len" and len(e.args) == 1 and self._is_parts(e.args[0]):
-            return p
+            return p + len(getattr(self, "_pad_now", []))
         if isinstance(e, ast.BinOp) and isinstance(e.op, (ast.Add, ast.Sub)):
             a, b = self._int(e.left, p), self._int(e.right, p)
             if a is None or b is None:
@@ -2910,6 +2955,8 @@ class HrefParts:
     def _tok(self, e: ast.expr, state: dict, p: int):
         if isinstance(e, ast.Constant) and e.value is None:
             return "NONE"
+        if isinstance(e, ast.Constant) and e.value == "":
+            return "EMPTY"
         if isinstance(e, ast.Subscript) and self._is_parts(e.value) and isinstance(e.slice, ast.Constant) and type(e.slice.value) is int:
             i = e.slice.value
             return ("PART", i if i >= 0 else p + i)
@@ -2919,7 +2966,7 @@ class HrefParts:
         if inner is not None:
             # `part or None` / `part if part else None`: a part that is left empty counts as omitted
             t = self._tok(inner, state, p)
-            return (*t[:2], "opt") if isinstance(t, tuple) and t[0] == "PART" else (t if t == "NONE" else "OTHER")
+            return (*t[:2], "opt") if isinstance(t, tuple) and t[0] == "PART" else ("NONE" if t in ("NONE", "EMPTY") else "OTHER")
         if isinstance(e, ast.IfExp):
             v = self._test(e.test, p)
             if v is not None:
@@ -2928,7 +2975,7 @@ class HrefParts:
 
     def _seq(self, e: ast.expr, state: dict, p: int):
         if self._is_parts(e):
-            return [("PART", i) for i in range(p)]
+            return [("PART", i) for i in range(p)] + (list(state.get("__pad__", [])) if isinstance(e, ast.Name) else [])
         if isinstance(e, (ast.Tuple, ast.List)):
             out = []
             for x in e.elts:
@@ -2983,6 +3030,12 @@ class HrefParts:
 
     def _run(self, stmts, state: dict, p: int) -> None:
         for st in stmts:
+            if isinstance(st, ast.AugAssign) and isinstance(st.op, ast.Add) and isinstance(st.target, ast.Name) and self.P is not None and st.target.id == self.P:
+                pad = self._seq(st.value, state, p)  # parts += [""] * (3 - len(parts))
+                if pad is None or any(tk not in ("EMPTY", "NONE") for tk in pad):
+                    raise Unsupported(f"{self.fi.qualname}: `{short(st, 50)}` extends the list of path parts with something else than padding")
+                state["__pad__"] = list(state.get("__pad__", [])) + pad
+                continue
             if isinstance(st, (ast.Assign, ast.AnnAssign)):
                 value = st.value
                 targets = st.targets if isinstance(st, ast.Assign) else [st.target]
@@ -3150,7 +3203,30 @@ def _href_parts_check(corpus: Corpus, rep: Report) -> None:
     # key, domain and type are each optional: a part that is left empty (`inv::std:label#t`) is an omitted filter (None),
     # not the pattern '' - which matches no inventory key, domain or type
     k = f"{fi.fq}|a path part that is left empty counts as omitted"
+    lacking: list = []
+    n_impl = 1
     if raw_empty:
+        # not normalised where the destination is taken apart: then every implementation of the lookup must do it
+        # before it hands the part to its filter function (the Sphinx renderer overrides the lookup)
+        base_ci = corpus.cls("mdit_to_docutils.base:DocutilsRenderer")
+        n_impl = len(corpus.method_impls(base_ci, "get_inventory_matches"))
+        for impl in corpus.method_impls(base_ci, "get_inventory_matches"):
+            fcalls = _calls_to(impl, {"filter_inventories", "filter_sphinx_inventories"})
+            if len(fcalls) != 1:
+                raise Unsupported(f"{impl.qualname}: {len(fcalls)} filter calls")
+            kwv = {kw.arg: kw.value for kw in fcalls[0].keywords}
+            for i in sorted(raw_empty):
+                v_ = kwv.get(("invs", "domains", "otypes")[i])
+                if v_ is None or _or_none(v_) is None:
+                    lacking.append((impl, i, fcalls[0]))
+        if not lacking:
+            raw_empty = {}
+            rep.note(f"C19.R4: the empty-part normalisation is done in every get_inventory_matches implementation, not in {where.qualname}")
+    if raw_empty and lacking and len(lacking) < len(raw_empty) * n_impl:
+        impl, i, c_ = lacking[0]
+        rep.violation("C19.R4", k, impl.module.site(c_), f"the empty-part normalisation was moved into the lookup, but {impl.qualname} hands `{('invs', 'domains', 'otypes')[i]}` on as it is: "
+                      f"under that renderer `<inv::std:label#foo>` passes the pattern '' for the {label[i]} and reports \"No matches\" although the part is optional")
+    elif raw_empty:
         names = ", ".join(f"`{raw_empty[i][0]}` ({label[i]})" for i in sorted(raw_empty))
         nd = raw_empty[min(raw_empty)][1]
         rep.violation("C19.R4", k, where.module.site(nd) if nd is not None else fi.module.site(calls[0]), f"{names} receive(s) the path part as it is: for `<inv::std:label#foo>` / `<inv:key::label#foo>` the empty part is handed on as the pattern '', "
@@ -3955,6 +4031,11 @@ def mutants(corpus: Corpus):
         add("c19-cli-location-filter-needs-length", "C19.R2", inv, nt_, f"{lv} is not None and len({lv}) > 0", "the empty pattern is a pattern")
     else:
         out.append(("c19-cli-empty-location-pattern-means-no-filter", "the `is not None` test of the location option was not found next to its match"))
+    # class "a compiled wildcard pattern applied with match/search instead of a full match" (outside the filter functions)
+    lc_ = find_node(cli_, lambda n: isinstance(n, ast.Call) and unparse(n.func) == "match_with_wildcard" and len(n.args) == 2)
+    if lc_ is not None:
+        add("c19-cli-location-pattern-prefix-matched", "C19.R2", inv, lc_, f"_create_regex({unparse(lc_.args[1])}).match({unparse(lc_.args[0])})", "applied to the whole value")
+        add("c19-cli-location-pattern-searched", "C19.R2", inv, lc_, f"_create_regex({unparse(lc_.args[1])}).search({unparse(lc_.args[0])})", "applied to the whole value")
     # ---- R3
     fn = inv.func("filter_inventories")
     fs = inv.func("filter_sphinx_inventories")
@@ -4084,6 +4165,16 @@ def mutants(corpus: Corpus):
             add("c19-empty-href-parts-passed-as-empty-patterns", "C19.R4", base, wp, hdr + f"\n{ind}".join(f"{unparse(b.targets[0])} = {unparse(_or_none(b.value))}" for b in wp.body), "left empty counts as omitted")
             add("c19-empty-inventory-part-passed-as-empty-pattern", "C19.R4", base, wp.body[0].value, unparse(_or_none(wp.body[0].value)), "left empty counts as omitted")
             add("c19-empty-type-part-passed-as-empty-pattern", "C19.R4", base, wp.body[2].value, unparse(_or_none(wp.body[2].value)), "left empty counts as omitted")
+            # class "the normalisation moved into one implementation of the lookup only" (the Sphinx override lacks it)
+            gmi = base.func("DocutilsRenderer.get_inventory_matches")
+            fc_ = find_node(gmi, lambda n: isinstance(n, ast.Call) and unparse(n.func).endswith("filter_inventories"))
+            kws_ = {k_.arg: k_ for k_ in fc_.keywords} if fc_ is not None else {}
+            if fc_ is not None and all(a_ in kws_ for a_ in ("invs", "domains", "otypes")) and fc_.lineno > wp.lineno:
+                src_ = base.src
+                for a_ in sorted(("invs", "domains", "otypes"), key=lambda a__: -kws_[a__].value.lineno):
+                    src_ = splice(src_, kws_[a_].value, f"{unparse(kws_[a_].value)} or None")
+                src_ = splice(src_, wp, hdr + f"\n{ind}".join(f"{unparse(b.targets[0])} = {unparse(_or_none(b.value))}" for b in wp.body))
+                out.append(Mutant("c19-empty-part-normalised-in-the-docutils-lookup-only", "C19.R4", base.rel, src_, expect="left empty counts as omitted"))
         else:
             out.append(("c19-empty-href-parts-passed-as-empty-patterns", "the parts are not normalised with `or None` on this tree"))
         add("c19-href-parts-behind-length-guard", "C19.R4", base, wp, f"if len({pv}) > 2:\n{ind}" + f"\n{ind}".join(ast.get_source_segment(base.src, b) for b in wp.body), "inv: path with 2 part")
